@@ -582,9 +582,12 @@ impl<TokenIter: Iterator<Item = Result<Token>>> Parser<TokenIter> {
                                         .into()
                                 }
                                 keyword => {
-                                    if let Some(transformer) =
-                                        syntax_env.get(&first.expect_symbol()?)
-                                    {
+                                    // cloned out of the scope: the expansion may itself
+                                    // contain a define-syntax that writes to this scope
+                                    let transformer = syntax_env
+                                        .get(&first.expect_symbol()?)
+                                        .map(|transformer| (*transformer).clone());
+                                    if let Some(transformer) = transformer {
                                         #[cfg(ruschm_verif)]
                                         let _verif_guard = crate::verif_hooks::enter_expansion().map_err(|_| {
                                             ErrorData::from(LogicError::Extension("verif: budget exhausted (macro expansion nesting)".to_string())).no_locate()
